@@ -20,7 +20,7 @@ func init() {
 		ID:        "C05",
 		Level:     "model_checking",
 		Technique: "exhaustive enumeration of handler programs (result-writer operation sequences x statement counts x parser outcomes) run on a real server over an in-memory transport; every writer call and every cycle compared with a reference state machine",
-		Rule:      "handler programs: all op sequences of length <= N over " + fmt.Sprintf("%q", c05Ops) + " x {return nil, return error} x {0, 2 columns}; 2-3 statement products over a 4-op core; parser error / zero statements / blank queries; each program as first and as second Query of a connection",
+		Rule:      "handler programs: all op sequences of length <= N over " + fmt.Sprintf("%q", c05Ops) + " x {return nil, return error} x {0, 2 columns}; 2-3 statement products over a 4-op core; parser error / zero statements / blank queries; each program as first and as second Query of a connection; 7 programs x 5 states of a neighbouring connection of the same server (discarding until Sync, inside COPY-in, inside an extended batch, not started, after a failed query), the neighbour completed and checked afterwards",
 		Assumptions: []string{
 			"presence of RowDescription for a column-less statement, a CommandComplete for a statement returning nil without Complete, and the behaviour of calls after a successful Empty() are not asserted (only return-value <=> emission consistency)",
 			"reply attribution uses quiescence of the in-memory transport (server parked in Read), not time",
@@ -30,7 +30,7 @@ func init() {
 			a, b, c := c05Depth(tier)
 			return map[string]any{"single_statement_ops": a, "two_statement_ops": b, "three_statement_ops": c}
 		},
-		RequiredOutcomes: []string{"ok", "stmt-error", "parser-error", "zero-statements", "blank", "copy-cycle"},
+		RequiredOutcomes: []string{"ok", "stmt-error", "parser-error", "zero-statements", "blank", "copy-cycle", "neighbour"},
 	})
 }
 
@@ -41,16 +41,32 @@ func c05Depth(tier string) (int, int, int) {
 	return 4, 2, 1
 }
 
-func c05Run(query string, second bool) explore.Result {
-	var res explore.Result
-	rec := &script.Rec{}
-	one, err := harness.StartOne(rec.ParseFn())
+func c05Run(query string, second bool) explore.Result { return c05RunNb(query, second, nil) }
+
+// c05RunNb: the same cycle check while another connection of the server is parked in the given state.
+func c05RunNb(query string, second bool, nb *neighbour) (res explore.Result) {
+	rec := &script.Rec{Extra: copyHandler}
+	srv, err := harness.NewServer(rec.ParseFn())
 	if err != nil {
 		res.Engine = err.Error()
 		return res
 	}
+	defer srv.Stop()
+	if nb != nil {
+		nc, problem := startNeighbour(srv, *nb)
+		if problem != "" {
+			res.Engine = problem
+			return res
+		}
+		defer func() {
+			finishNeighbour(&res, nc, *nb, fmt.Sprintf("query %q", query))
+			if res.Outcome != "" {
+				res.Outcome = "neighbour"
+			}
+		}()
+	}
+	one := &harness.One{Server: srv, Conn: srv.Connect()}
 	rec.Conn = one.C
-	defer one.Stop()
 	out, _ := one.Step(pgproto.Startup("user", "u"))
 	if !strings.HasSuffix(harnessKinds(out), "Z") {
 		res.Engine = "startup failed: " + harnessKinds(out)
@@ -224,6 +240,15 @@ func c05Enumerate(tier string, emit explore.Emit) {
 	}
 	for _, q := range []string{"", " ", "\t\n ", "#perr", "#zero"} {
 		add(q, 0)
+	}
+	// every neighbour state x a small set of programs
+	for _, nb := range neighbourStates() {
+		for _, q := range []string{"", "#perr", "#zero", "1:r,c=SELECT 1", "2:r,r,c=T|0:c=X", "1:r,!boom|0:c=X", "0:e"} {
+			nb, q := nb, q
+			emit(explore.Case{Family: "neighbour", Size: 5,
+				Desc: func() any { return map[string]any{"query_program": q, "neighbouring_connection": nb.Name} },
+				Run:  func() explore.Result { return c05RunNb(q, true, &nb) }})
+		}
 	}
 	for _, nc := range []int{2, 0} {
 		c05Programs(c05Ops, d1, nc, add)
